@@ -52,7 +52,7 @@ def plan(tier, seed):
 
 def floors(tier):
     return {'evaluations': 50000, 'distinct_nontrivial': 2000, 'mapping_checked': 100000,
-            'error_positions_checked': 1000, 'errors_on_later_lines': 100, 'out_of_order_lookups': 100000, 'parses_after_earlier_lookup': 500, 'open_context_positions_checked': 2000, 'open_contexts_two_lines_above_error': 200,
+            'error_positions_checked': 1000, 'errors_on_later_lines': 100, 'out_of_order_lookups': 100000, 'caller_located_errors_attached_to_nodes': 20000, 'parses_after_earlier_lookup': 500, 'open_context_positions_checked': 2000, 'open_contexts_two_lines_above_error': 200,
             'histkeys:error_located_via': 9, 'hist:error_located_via:get_latex_braced_group': 50,
             'hist:error_located_via:expression_parser': 50}
 
@@ -168,6 +168,38 @@ def check_case(case, rec):
                         return
         if len(READINGS) > 1:
             rec.violation(case, 'both readings of the first-line column offset observed in one run', mech='reading')
+        # an error object located by the caller and then attached to a node (the public helper of the located-error
+        # classes): with or without a position of its own, its line/column -- if it reports any -- are those of its
+        # position, and the node is listed as an open construct at the node's own position
+        if '\n' in s and len(s) >= 3:
+            from pylatexenc.latexnodes import nodes as _N
+            lw2 = walker(s, tolerant=True, **offs)
+            npos = order_rng.randrange(len(s))
+            node = _N.LatexCharsNode(parsing_state=lw2.make_parsing_state(), latex_walker=lw2, chars=s[npos:npos + 1],
+                                     pos=npos, pos_end=npos + 1)
+            for own in (None, order_rng.randrange(len(s) + 1)):
+                e = LatexWalkerParseError(msg='located by the caller', s=s, pos=own)
+                e.set_pos_or_add_open_context_from_node(node)
+                rec.monitor('caller_located_errors_attached_to_nodes')
+                want_pos = npos if own is None else own
+                if e.pos != want_pos:
+                    rec.violation(case, 'error with position %r attached to a node at %d now has position %r' % (own, npos, e.pos),
+                                  mech='attach-pos')
+                    return
+                if e.lineno is not None or e.colno is not None:
+                    err, reading = check_mapping(s, e.pos, (e.lineno, e.colno), offs)
+                    if err:
+                        rec.violation(case, 'error at pos %d (own position %r) attached to a node at %d reports line/col %r '
+                                      'on %r offsets %r: %s' % (e.pos, own, npos, (e.lineno, e.colno), s, offs, err),
+                                      mech='attach-mapping')
+                        return
+                for octx in (e.open_contexts or []):
+                    what, opos, olineno, ocolno = octx
+                    err, reading = check_mapping(s, opos, (olineno, ocolno), offs)
+                    if err or opos != npos:
+                        rec.violation(case, 'node at %d listed as open construct at %r with line/col %r on %r: %s' % (
+                            npos, opos, (olineno, ocolno), s, err), mech='attach-context')
+                        return
     else:
         try:
             lw = walker(s, tolerant=False, **offs)
